@@ -262,3 +262,50 @@ Proof.
     + rewrite chk_i32_in by (unfold i32_max in *; lia). reflexivity.
     + rewrite chk_i32_out by lia. reflexivity.
 Qed.
+
+(* ---- '_' separators ---- *)
+Lemma big_collect_repeat_under k rest : big_collect 10 (repeat 95%N k ++ rest) = big_collect 10 rest.
+Proof. induction k as [|k IH]; [reflexivity|]. cbn [repeat app big_collect]. exact IH. Qed.
+
+Lemma big_collect_underscored ds : digits_ok 10 ds -> forall us, big_collect 10 (underscored ds us) = Some ds.
+Proof.
+  intros H. induction H as [|d r Hd Hr IH]; intros us; [reflexivity|].
+  cbn [underscored]. rewrite digit_symbol_char by lia.
+  destruct (digit_char_facts d Hd) as (Eu & _ & _ & Ea).
+  cbn [big_collect]. unfold big_byte. rewrite Eu, Ea. destruct (Z.ltb_spec d 10); [|lia].
+  rewrite big_collect_repeat_under, IH. reflexivity.
+Qed.
+
+Lemma parse_bigint_body s d tail ds : 0 <= d < 10 -> big_collect 10 (digit_char d :: tail) = Some ds ->
+  parse_bigint 10 (sign_text s ++ digit_char d :: tail) = Some (sign_z s (eval_be 10 ds)).
+Proof.
+  intros Hd Hc. destruct (digit_char_facts d Hd) as (Eu & Ep & Em & _).
+  assert (Hu : parse_biguint 10 (digit_char d :: tail) = Some (eval_be 10 ds)).
+  { unfold parse_biguint. rewrite Ep. cbn [andb]. rewrite Eu, Hc. reflexivity. }
+  destruct s; cbn [sign_text app sign_z].
+  - unfold parse_bigint. rewrite Em. exact Hu.
+  - unfold parse_bigint. change (plus_sign =? c_minus)%N with false. cbv iota.
+    unfold parse_biguint at 1. change (plus_sign =? c_plus)%N with true.
+    cbn [starts_with]. rewrite Ep. cbn [andb negb].
+    unfold parse_biguint in Hu. rewrite Ep in Hu. cbn [andb] in Hu. exact Hu.
+  - unfold parse_bigint. change (minus_sign =? c_minus)%N with true. cbv iota.
+    cbn [starts_with]. rewrite Ep. rewrite Hu. reflexivity.
+Qed.
+
+(* int("1_000") = 1000: separators after any digit are ignored *)
+Theorem int_of_str_underscores : forall s ds us, ds <> [] -> digits_ok 10 ds ->
+  int_of_str (sign_text s ++ underscored ds us) = Ok (sign_z s (pos_value 10 ds)).
+Proof.
+  intros s ds us Hne Hd. pose proof (big_collect_underscored ds Hd us) as Hc.
+  destruct ds as [|d r]; [contradiction|]. inversion Hd as [|? ? Hd0 Hr]; subst.
+  cbn [underscored] in *. rewrite digit_symbol_char in * by lia.
+  unfold int_of_str. rewrite (parse_bigint_body s d _ (d :: r) Hd0 Hc).
+  rewrite pos_value_eval_be. reflexivity.
+Qed.
+
+(* but a leading separator, a doubled sign or any other character is an error *)
+Example int_of_str_rejects :
+  int_of_str [95; 49]%N = Err EValue /\ int_of_str [45; 95; 49]%N = Err EValue /\
+  int_of_str [45; 43; 49]%N = Err EValue /\ int_of_str [32; 49]%N = Err EValue /\
+  int_of_str [] = Err EValue /\ int_of_str [45]%N = Err EValue /\ int_of_str [49; 46; 48]%N = Err EValue.
+Proof. repeat split; reflexivity. Qed.
